@@ -419,8 +419,10 @@ theorem parser_reads_prefix (f rbp bb : Nat) (t h : Ecal.Lex.Tok) (ts' : List Ec
 
 `Ecal.Parse.run` is the parser model of C07 (`parse_wellformed`); `RP.realToks` assigns to every abstract token of the
 printed tree a real token of the table in Parser.lean (numbers for atoms), `RP.nodeE` is the node tree the real
-parser builds. `RP.table_agrees` (by `decide`) ties Parser.lean's table to the operator table regenerated from
-parser.go. -/
+parser builds. Parser.lean's operator table is a HAND COPY of astNodeMap; `RP.tablesAgree` (it has every operator of
+the table regenerated from parser.go with the same name, denotation and binding) is a HYPOTHESIS of the theorem, its
+value is reported in the evidence of every run — a renumbering of bindings in parser.go makes it false without making
+anything wrong. -/
 
 /-- the heads of the real table whose keyword is parsed by ndPrefix (not `return`) -/
 def okHead : Head → Bool
@@ -463,12 +465,13 @@ theorem pIn_annotW (br : Head → Head → Nat → Bool → Bool) (e : Expr) (h 
     atoms), outside the known class mul-right-brackets: the REAL parser model `Ecal.Parse.run`, started on the real
     tokens of the printed tree (parentheses by `realBr`, the rule extracted from prettyprinter.go) followed by an
     end-of-input token, returns exactly the node tree of `e` and stops at the end token — for every fuel from
-    `1 + cost` on.
+    `1 + cost` on; under the hypothesis that Parser.lean's table agrees with the regenerated one.
     (`_partial`: `return <value>` operands, identifier atoms with their call / access chains, comments and line
     breaks inside the expression are not covered; the printed TEXT is tied to these tokens by the correspondence run
     and by `quote_lex_roundtrip` for string atoms, not by a lexer theorem.) -/
 theorem print_parse_expr_real_parser_partial (e : Expr) (hin : headsIn okHead e = true)
-    (hne : hasExc realPowers realExc e = false) (eof : Ecal.Lex.Tok) (heof : TP.Real eof)
+    (hne : hasExc realPowers realExc e = false) (hagree : RP.tablesAgree = true)
+    (eof : Ecal.Lex.Tok) (heof : TP.Real eof)
     (hb : (TP.nodeOf 0 eof).binding = 0) (F : Nat)
     (hF : 1 + RP.cost (annotW realPowers realExc realBr e) ≤ F) :
     Ecal.Parse.run F 0 (TP.st 0 (TP.nodeOf 0 (RP.hdT RP.realToks (annotW realPowers realExc realBr e)))
@@ -486,7 +489,7 @@ theorem print_parse_expr_real_parser_partial (e : Expr) (hin : headsIn okHead e 
       exact ⟨okHead_inTable _ hin.1, ih hin.2⟩
   have hok := annotW_ok realPowers realExc realBr inTable real_bp_pos real_rule_suffices e 0 0 hin' hne
     (adm_zero realPowers real_bp_pos e)
-  have := RP.real_ok_parses RP.realToks realPowers RP.okB RP.okP RP.good_realToks
+  have := RP.real_ok_parses RP.realToks realPowers RP.okB RP.okP (RP.good_realToks hagree)
     (annotW realPowers realExc realBr e) 0 0 0 (Nat.le_refl _) hok (pIn_annotW realBr e hin) eof []
     (.ok (RP.nodeE RP.realToks e) (TP.st 0 (TP.nodeOf 0 eof) [])) 1 heof (Nat.le_of_eq hb)
     (by
